@@ -303,3 +303,77 @@ def checks(tier):
                       "side (all 49 pairs), all 4 combinations of include_trees / change_type_same",
                outside="rename detection", tiers=q),
     ]
+
+
+# ---------------------------------------------------------------------------------------------
+# (f) with rename / copy / rewrite detection the diff is still a consistent edit script
+_b12f = checks
+
+
+def _variants():
+    """blobs with graded similarity to a 20-line base: identical, ~90 %, ~75 %, unrelated"""
+    from dulwich.objects import Blob
+    lines = [b"line %02d of the common base text\n" % i for i in range(20)]
+    out = [Blob.from_string(b"".join(lines))]
+    for keep in (18, 15):
+        out.append(Blob.from_string(b"".join(lines[:keep]) + b"".join(b"changed %02d in variant %d\n" % (i, keep) for i in range(keep, 20))))
+    out.append(Blob.from_string(b"".join(b"nothing in common %02d\n" % i for i in range(20))))
+    return out
+
+
+def h_rename_detect(eng, rewrite=None, harder=False):
+    """every pair of trees (old over {a, b}, new over {a, b, c}) whose contents come from 4 graded variants of one text (or are absent),
+    diffed with a RenameDetector (rename threshold 60, rewrite threshold None / 50 / 80 / 95, find_copies_harder on/off):
+    applying the reported changes to the first listing (delete removes, add / modify / rename-target / copy-target set)
+    yields the second, every old path is consumed at most once by a non-copy change, every new path is produced once"""
+    store = _store()
+    vs = _variants()
+    for v in vs:
+        store.add_object(v)
+    paths = [b"a", b"b", b"c"]
+
+    def listing(tag):
+        L = {}
+        for i, p in enumerate(paths[:2] if tag == "old" else paths):
+            k = eng.choice(f"{tag}_{p.decode()}", len(vs) + 1)
+            if k < len(vs):
+                L[p] = (0o100644, vs[k].id)
+        return L
+    LA, LB = listing("old"), listing("new")
+    ta = commit_tree(store, [(p, sha, mode) for p, (mode, sha) in LA.items()])
+    tb = commit_tree(store, [(p, sha, mode) for p, (mode, sha) in LB.items()])
+    det = DT.RenameDetector(store, rename_threshold=60, rewrite_threshold=rewrite, find_copies_harder=harder)
+    changes = det.changes_with_renames(ta, tb)
+    tag = f"[old {sorted((p, [v.id for v in vs].index(s)) for p, (m, s) in LA.items())} new {sorted((p, [v.id for v in vs].index(s)) for p, (m, s) in LB.items())} rewrite={rewrite} harder={harder}: {[(c.type, c.old and c.old.path, c.new and c.new.path) for c in changes]}]"
+    out = dict(LA)
+    consumed, produced = [], []
+    for c in changes:
+        if c.type == DT.CHANGE_UNCHANGED:
+            continue
+        if c.type in (DT.CHANGE_DELETE, DT.CHANGE_RENAME) and c.old is not None:
+            consumed.append(c.old.path)
+        if c.type == DT.CHANGE_MODIFY and c.old is not None:
+            consumed.append(c.old.path)
+        if c.new is not None and c.new.path is not None and c.type != DT.CHANGE_DELETE:
+            produced.append(c.new.path)
+    for c in changes:
+        if c.type in (DT.CHANGE_DELETE, DT.CHANGE_RENAME):
+            out.pop(c.old.path, None)
+    for c in changes:
+        if c.type in (DT.CHANGE_ADD, DT.CHANGE_MODIFY, DT.CHANGE_RENAME, DT.CHANGE_COPY):
+            out[c.new.path] = (c.new.mode, c.new.sha)
+    eng.prove(out == LB, f"{tag} the changes applied to the old listing give the new one")
+    eng.prove(len(consumed) == len(set(consumed)), f"{tag} no old path is consumed twice (delete / modify / rename source)")
+    eng.prove(len(produced) == len(set(produced)), f"{tag} no new path is produced twice")
+
+
+def checks(tier):
+    q = ("quick", "thorough")
+    return _b12f(tier) + [
+        KCheck("C12f.rename_detect", h_rename_detect, parts=[{"rewrite": r, "harder": h} for r in (None, 50, 80, 95) for h in (False, True)],
+               encoded=["dulwich.diff_tree.RenameDetector.changes_with_renames/_find_exact_renames/_find_content_rename_candidates/"
+                        "_choose_content_renames/_join_modifies/_prune_unchanged", "dulwich.diff_tree._similarity_score"],
+               bounds="every pair of trees (old over {a, b}, new over {a, b, c}) with each path absent or one of 4 graded variants of a 20-line text (identical, "
+                      "~90/75 % similar, unrelated); rename threshold 60; rewrite threshold None, 50, 80, 95; find_copies_harder "
+                      "on/off", outside="more paths; directories; agreement with git's own rename heuristics", tiers=q),
+    ]
